@@ -851,8 +851,8 @@ def result_transfer(I, fr, t, c, pth):
                 alts.append((Opt('some', r_), [(b[1], 1)] + list(p_.labels), list(p_.events)))
             return I.fork_alternatives(fr, t, pth, alts)
         return False
-    is_res_m = d.startswith('std::result::Result::<T, E>::')
-    is_opt_m = d.startswith('std::option::Option::<T>::')
+    is_res_m = d.startswith('std::result::Result::<')
+    is_opt_m = d.startswith('std::option::Option::<')        # also Option::<&T>::copied and friends
     if not (is_res_m or is_opt_m) or not args:
         return False
     m = d.rsplit('::', 1)[-1]
